@@ -1,4 +1,5 @@
 import ClusterVerif.Lemmas.C04
+import ClusterVerif.Lemmas.C04Faults
 import ClusterVerif.Model.C04Source
 import ClusterVerif.Gen.C04
 
@@ -14,6 +15,9 @@ Property theorems only (helpers in `Lemmas/C04.lean`, `Lemmas/PinMap.lean`).
 -/
 namespace CV.C04
 open CV
+
+/-- a C03 input used only as the default of `Option.getD` in examples -/
+def default' : C03.Input := { desc := false, rmin := 0, rmax := 0, peers := [], current := [], blacklist := [], priority := [] }
 
 /-- requests carry metadata as a map (one value per key) -/
 def wfOp : Op → Bool
@@ -257,6 +261,268 @@ example :
       (step exCfg exPre (.pin 3 exOpts) [0, 1]).post = true ∧
     holds exCfg exPre (.pin 3 exOpts) exPre.head? exPre = false := by decide
 
+
+/-! ## Round 7 — path operations, consensus faults at every position, overlapping calls -/
+
+/-! ### PinPath / UnpinPath -/
+
+/-- `PinPath` is `Pin` of what the path resolves to; `UnpinPath` is `Unpin` of it -/
+theorem path_ops_are_cid_ops (cfg : Cfg) (pre : PinMap) (path c : Nat) (o : Opts) (ch : List Nat)
+    (h : lookup cfg.paths path = some c) :
+    step cfg pre (.pinPath path o) ch = step cfg pre (.pin c o) ch ∧
+    step cfg pre (.unpinPath path) ch = step cfg pre (.unpin c) ch := by
+  simp [step, h]
+
+/-- a path that does not resolve (`ipfs.Resolve` error or timeout): refused, nothing logged, nothing changed -/
+theorem path_unresolved_is_noop (cfg : Cfg) (pre : PinMap) (path : Nat) (o : Opts) (ch : List Nat)
+    (h : lookup cfg.paths path = none) :
+    (step cfg pre (.pinPath path o) ch).res = none ∧ (step cfg pre (.pinPath path o) ch).post = pre ∧
+    (step cfg pre (.pinPath path o) ch).log = [] ∧
+    (step cfg pre (.unpinPath path) ch).res = none ∧ (step cfg pre (.unpinPath path) ch).post = pre ∧
+    (step cfg pre (.unpinPath path) ch).log = [] := by
+  simp [step, h, err]
+
+/-- `PinPath` with the `update` option set to another CID is `PinUpdate(update, resolved, opts)` -/
+theorem pinPath_update_is_pinUpdate (cfg : Cfg) (pre : PinMap) (path c u : Nat) (o : Opts) (ch : List Nat)
+    (h : lookup cfg.paths path = some c) (hfol : cfg.follower = false) (hu : viaUpdate c o = some u) :
+    step cfg pre (.pinPath path o) ch = pinUpdate cfg pre u c o := by
+  rw [(path_ops_are_cid_ops cfg pre path c o ch h).1]
+  exact pinOp_user_update cfg pre c o ch u hfol hu
+
+/-- a path that resolves to a CID whose entry is a shard, cluster-DAG or meta pin cannot be (re-)pinned through
+    `PinPath`, and one that resolves to a shard or cluster-DAG pin cannot be unpinned: refused, pinset unchanged -/
+theorem path_to_structural_entry_refused (cfg : Cfg) (pre : PinMap) (path c : Nat) (o : Opts) (ch : List Nat) (e : Pin)
+    (h : lookup cfg.paths path = some c) (he : pre.get c = some e) (hty : e.type ≠ .dataT) (hu : viaUpdate c o = none) :
+    (step cfg pre (.pinPath path o) ch).res = none ∧ (step cfg pre (.pinPath path o) ch).post = pre ∧
+    ((e.type = .shardT ∨ e.type = .clusterDagT) →
+      (step cfg pre (.unpinPath path) ch).res = none ∧ (step cfg pre (.unpinPath path) ch).post = pre) := by
+  have hm : mustRefuse cfg pre (.pinPath path o) = true := by
+    have ht : (e.type != PinType.dataT) = true := by simpa using hty
+    simp [mustRefuse, pinRequest, resolve, h, hu, he, ht]
+  have hres := mustRefuse_refused cfg pre (.pinPath path o) ch hm
+  refine ⟨hres, shape_refused (shape_step cfg pre (.pinPath path o) ch) hres, ?_⟩
+  intro hs
+  rw [(path_ops_are_cid_ops cfg pre path c o ch h).2]
+  rcases hs with hs | hs <;> by_cases hf : cfg.follower = true <;> simp [step, unpinOp, he, hs, hf, err]
+
+/-! ### consensus faults -/
+
+/-- no fault (or a fault position the call never reaches): the call of `Model/C04.lean` -/
+theorem stepF_no_fault (cfg : Cfg) (pre : PinMap) (op : Op) (ch : List Nat) :
+    stepF cfg pre op ch none = step cfg pre op ch ∧
+    ∀ k, (step cfg pre op ch).log.length ≤ k → stepF cfg pre op ch (some k) = step cfg pre op ch := by
+  refine ⟨rfl, ?_⟩
+  intro k hk
+  have : ¬ k < (step cfg pre op ch).log.length := by omega
+  simp [stepF, this]
+
+/-- a fault at the k-th consensus call: an error, and exactly the first k calls applied -/
+theorem fault_effect (cfg : Cfg) (pre : PinMap) (op : Op) (ch : List Nat) (k : Nat)
+    (hk : k < (step cfg pre op ch).log.length) :
+    (stepF cfg pre op ch (some k)).res = none ∧
+    (stepF cfg pre op ch (some k)).post = applyLog ((step cfg pre op ch).log.take k) pre ∧
+    (stepF cfg pre op ch (some k)).log = (step cfg pre op ch).log.take k := stepF_fault hk
+
+/-- "or not at all" under faults, the provable part: a call that issues at most one consensus call (every Pin,
+    PinPath, PinUpdate, rpc pin, and Unpin/UnpinPath of a data pin) leaves the pinset unchanged when it fails -/
+theorem failed_call_is_noop_partial (cfg : Cfg) (pre : PinMap) (op : Op) (ch : List Nat) (fault : Option Nat)
+    (hone : (step cfg pre op ch).log.length ≤ 1) (hres : (stepF cfg pre op ch fault).res = none) :
+    (stepF cfg pre op ch fault).post = pre := by
+  cases fault with
+  | none => exact shape_refused (shape_step cfg pre op ch) hres
+  | some k =>
+    by_cases hk : k < (step cfg pre op ch).log.length
+    · have h0 : k = 0 := by omega
+      subst h0
+      rw [(stepF_fault hk).2.1]; rfl
+    · have := (stepF_no_fault cfg pre op ch).2 k (by omega)
+      rw [this] at hres ⊢
+      exact shape_refused (shape_step cfg pre op ch) hres
+
+/-- the full statement: EVERY failed call leaves the pinset unchanged -/
+def failed_call_is_noop_full : Prop :=
+  ∀ (cfg : Cfg) (pre : PinMap) (op : Op) (ch : List Nat) (fault : Option Nat),
+    pre.wfState = true → (stepF cfg pre op ch fault).res = none → (stepF cfg pre op ch fault).post = pre
+
+private def shGroup : PinMap :=
+  let o : Opts := { rmin := 0, rmax := 0, name := 0, mode := .recursive, shard := 0, expire := .zero,
+                    metadata := [], update := none, origins := [], ualloc := [] }
+  [ { cid := 8, type := .metaT, depth := -1, allocs := [], ref := some 9, opts := o },
+    { cid := 9, type := .clusterDagT, depth := 0, allocs := [], ref := some 8, opts := { o with rmin := -1, rmax := -1, mode := .direct } },
+    { cid := 10, type := .shardT, depth := 1, allocs := [0], ref := none, opts := { o with rmin := 1, rmax := 2 } },
+    { cid := 11, type := .shardT, depth := 1, allocs := [1], ref := some 10, opts := { o with rmin := 1, rmax := 2 } } ]
+private def shCfg : Cfg :=
+  { follower := false, defMin := 1, defMax := 2, desc := false, peers := [(0, .valid 1), (1, .valid 1)], paths := [(6, 8)],
+    blocks := [(9, [10, 11])] }
+
+/-- …which the code violates: the sharded unpin with the second `LogUnpin` failing reports an error and has
+    removed shard 11 (known finding K41; the same line is in corpus/C04/calls.txt and fails on the implementation) -/
+theorem failed_call_is_noop_full_fails : ¬ failed_call_is_noop_full := by
+  intro h
+  have := h shCfg shGroup (.unpin 8) [] (some 1) (by decide) (by decide)
+  revert this; decide
+
+/-- every fault position of the sharded unpin: with links `l` the calls are `l.reverse ++ [r, c, c]`; after a
+    fault at position k exactly the cids of the first k calls are gone, everything else is as before -/
+theorem sharded_unpin_fault_positions (cfg : Cfg) (pre : PinMap) (c r : Nat) (p q : Pin) (links : List Nat) (k : Nat)
+    (hfol : cfg.follower = false) (hp : pre.get c = some p) (hty : p.type = .metaT) (hr : p.ref = some r)
+    (hq : pre.get r = some q) (hb : lookup cfg.blocks r = some links) (hk : k < links.length + 3) (x : Nat) :
+    (stepF cfg pre (.unpin c) [] (some k)).res = none ∧
+    (stepF cfg pre (.unpin c) [] (some k)).post.get x =
+      if x ∈ (links.reverse ++ [r, c, c]).take k then none else pre.get x := by
+  obtain ⟨hlog, _, _⟩ := unpin_meta_log hfol hp hty hr hq hb []
+  have hk' : k < (step cfg pre (.unpin c) []).log.length := by rw [hlog]; simp; omega
+  obtain ⟨h1, h2, _⟩ := stepF_fault hk'
+  refine ⟨h1, ?_⟩
+  rw [h2, hlog, ← List.map_take, applyLog_unpins, get_foldl_erase]
+
+/-- a fault at a shard or at the cluster-DAG call (k ≤ number of shards) is healed by a retry: the entries the
+    retry needs are still there, and the retry ends in the pinset the undisturbed Unpin would have produced -/
+theorem unpin_retry_heals (cfg : Cfg) (pre : PinMap) (c r : Nat) (p q : Pin) (links : List Nat) (k : Nat)
+    (hw : pre.wf = true)
+    (hfol : cfg.follower = false) (hp : pre.get c = some p) (hty : p.type = .metaT) (hr : p.ref = some r)
+    (hq : pre.get r = some q) (hb : lookup cfg.blocks r = some links) (hk : k ≤ links.length)
+    (hc : c ∉ links) (hrl : r ∉ links) :
+    (step cfg (stepF cfg pre (.unpin c) [] (some k)).post (.unpin c) []).post = (step cfg pre (.unpin c) []).post := by
+  have hpos := fun x => (sharded_unpin_fault_positions cfg pre c r p q links k hfol hp hty hr hq hb (by omega) x).2
+  have htake : (links.reverse ++ [r, c, c]).take k = links.reverse.take k := by
+    rw [List.take_append_of_le_length (by simpa using hk)]
+  have hsub : ∀ x, x ∈ links.reverse.take k → x ∈ links := fun x hx => List.mem_reverse.1 (List.mem_of_mem_take hx)
+  set s := (stepF cfg pre (.unpin c) [] (some k)).post with hs
+  have hsc : s.get c = some p := by rw [hpos c, htake, if_neg (fun h => hc (hsub c h))]; exact hp
+  have hsr : s.get r = some q := by rw [hpos r, htake, if_neg (fun h => hrl (hsub r h))]; exact hq
+  obtain ⟨hlog, _, _⟩ := unpin_meta_log hfol hp hty hr hq hb []
+  have hk' : k < (step cfg pre (.unpin c) []).log.length := by rw [hlog]; simp; omega
+  have hsw : s.wf = true := by rw [hs, (stepF_fault hk').2.1]; exact wf_applyLog _ hw
+  have e1 : (step cfg s (.unpin c) []).post = (links.reverse ++ [r, c, c]).foldl PinMap.erase s := by
+    simp [step, unpinOp, hfol, hsc, hty, hr, hsr, hb]
+  have e2 : (step cfg pre (.unpin c) []).post = (links.reverse ++ [r, c, c]).foldl PinMap.erase pre := by
+    simp [step, unpinOp, hfol, hp, hty, hr, hq, hb]
+  rw [e1, e2]
+  apply ext_of_wf (wf_foldl_erase hsw _) (wf_foldl_erase hw _)
+  intro x
+  rw [get_foldl_erase, get_foldl_erase, hpos x, htake]
+  by_cases hx : x ∈ links.reverse ++ [r, c, c]
+  · simp [hx]
+  · have : x ∉ links.reverse.take k := fun h => hx (List.mem_append_left _ (List.mem_of_mem_take h))
+    simp [hx, this]
+
+/-- a fault exactly at the meta pin inside `unpinClusterDag` (position number-of-shards + 1: the cluster-DAG entry
+    is gone, the meta pin is not) strands the meta pin: every later Unpin of it is refused, the pinset keeps it -/
+theorem unpin_fault_strands_meta (cfg : Cfg) (pre : PinMap) (c r : Nat) (p q : Pin) (links : List Nat)
+    (hfol : cfg.follower = false) (hp : pre.get c = some p) (hty : p.type = .metaT) (hr : p.ref = some r)
+    (hq : pre.get r = some q) (hb : lookup cfg.blocks r = some links) (hc : c ∉ links) (hrc : r ≠ c) (ch : List Nat) :
+    let s := (stepF cfg pre (.unpin c) [] (some (links.length + 1))).post
+    s.get c = some p ∧ s.get r = none ∧
+    (step cfg s (.unpin c) ch).res = none ∧ (step cfg s (.unpin c) ch).post = s := by
+  intro s
+  have hpos := fun x => (sharded_unpin_fault_positions cfg pre c r p q links (links.length + 1) hfol hp hty hr hq hb (by omega) x).2
+  have htake : (links.reverse ++ [r, c, c]).take (links.length + 1) = links.reverse ++ [r] := by
+    rw [List.take_append, List.take_of_length_le (by simp)]; simp
+  have hsc : s.get c = some p := by
+    show (stepF cfg pre (.unpin c) [] (some (links.length + 1))).post.get c = some p
+    rw [hpos c, htake, if_neg, hp]
+    simp only [List.mem_append, List.mem_reverse, List.mem_singleton, not_or]
+    exact ⟨hc, fun h => hrc h.symm⟩
+  have hsr : s.get r = none := by
+    show (stepF cfg pre (.unpin c) [] (some (links.length + 1))).post.get r = none
+    rw [hpos r, htake, if_pos (by simp)]
+  refine ⟨hsc, hsr, ?_, ?_⟩ <;> simp [step, unpinOp, hfol, hsc, hty, hr, hsr, err]
+
+/-- the cluster-DAG block may list a shard that is not (or no longer) in the pinset: the Unpin still succeeds and
+    removes the rest (an absent entry is removed as a no-op) -/
+theorem unpin_tolerates_absent_shard (cfg : Cfg) (pre : PinMap) (c r : Nat) (p q : Pin) (links : List Nat)
+    (hfol : cfg.follower = false) (hp : pre.get c = some p) (hty : p.type = .metaT) (hr : p.ref = some r)
+    (hq : pre.get r = some q) (hb : lookup cfg.blocks r = some links) (x : Nat) :
+    (step cfg pre (.unpin c) []).res = some p ∧
+    (step cfg pre (.unpin c) []).post.get x = if x ∈ links ∨ x = r ∨ x = c then none else pre.get x := by
+  refine ⟨(unpin_meta_log hfol hp hty hr hq hb []).2.1, ?_⟩
+  have e2 : (step cfg pre (.unpin c) []).post = (links.reverse ++ [r, c, c]).foldl PinMap.erase pre := by
+    simp [step, unpinOp, hfol, hp, hty, hr, hq, hb]
+  rw [e2, get_foldl_erase]
+  by_cases h1 : x ∈ links <;> by_cases h2 : x = r <;> by_cases h3 : x = c <;> simp [h1, h2, h3]
+
+/-! ### two calls overlapping on one peer -/
+
+/-- the six interleavings of (read, write) × (read, write) produce exactly the four closed-form outcomes:
+    who writes first, and whether the second writer read before or after that write -/
+theorem interleavings_are_concurrent (cfg : Cfg) (pre : PinMap) (a b : Call) :
+    ∀ sched ∈ allScheds, ∃ x y stale, ((x = a ∧ y = b) ∨ (x = b ∧ y = a)) ∧
+      (runSched cfg a b pre sched).s = concurrent cfg pre x y stale := by
+  intro sched hs
+  simp only [allScheds, List.mem_cons, List.mem_nil_iff, or_false] at hs
+  rcases hs with rfl | rfl | rfl | rfl | rfl | rfl
+  · exact ⟨a, b, false, Or.inl ⟨rfl, rfl⟩, rfl⟩
+  · exact ⟨a, b, true, Or.inl ⟨rfl, rfl⟩, rfl⟩
+  · exact ⟨b, a, true, Or.inr ⟨rfl, rfl⟩, rfl⟩
+  · exact ⟨a, b, true, Or.inl ⟨rfl, rfl⟩, rfl⟩
+  · exact ⟨b, a, true, Or.inr ⟨rfl, rfl⟩, rfl⟩
+  · exact ⟨b, a, false, Or.inr ⟨rfl, rfl⟩, rfl⟩
+
+/-- Last writer wins, and what it wins with is well-formed: for any two calls, whoever writes second (`y`) and
+    whatever it had read, the final pinset has one entry per CID; at EVERY cid the final entry is the one `y` computed
+    (from the pinset it read) or the one `x` left; and `y`'s outcome satisfies every clause of C04 — in particular
+    its allocation satisfies C03 for its request — relative to the pinset it read. -/
+theorem last_writer_wins_wellformed (cfg : Cfg) (pre : PinMap) (x y : Call) (stale : Bool)
+    (hpre : pre.wfState = true) (hcfg : wfCfg cfg = true)
+    (hx : wfOpFull x.op = true) (hy : wfOp y.op = true)
+    (halloc : ∀ ai, (step cfg (readOfSecond cfg pre x stale) y.op y.chosen).alloc = some ai →
+      C03.allowed ai (.ok y.chosen) = true) :
+    let readY := readOfSecond cfg pre x stale
+    let outX := step cfg pre x.op x.chosen
+    let outY := step cfg readY y.op y.chosen
+    let final := concurrent cfg pre x y stale
+    final.wf = true ∧
+    (∀ k, final.get k = outY.post.get k ∨ final.get k = outX.post.get k) ∧
+    (∀ k, touched outY.log k = true → final.get k = outY.post.get k) ∧
+    holds cfg readY y.op outY.res outY.post = true := by
+  intro readY outX outY final
+  have hwf : pre.wf = true := by
+    unfold PinMap.wfState at hpre; simp only [Bool.and_eq_true] at hpre; exact hpre.1
+  have hs1 : applyLog outX.log pre = outX.post := (post_eq_applyLog (shape_step cfg pre x.op x.chosen)).symm
+  have hs1wfS : outX.post.wfState = true := step_wfState cfg pre x.op x.chosen hpre hx
+  have hs1wf : outX.post.wf = true := by
+    unfold PinMap.wfState at hs1wfS; simp only [Bool.and_eq_true] at hs1wfS; exact hs1wfS.1
+  have hreadS : readY.wfState = true := by
+    show (readOfSecond cfg pre x stale).wfState = true
+    unfold readOfSecond; cases stale
+    · simp only [Bool.false_eq_true, if_false]; rw [hs1]; exact hs1wfS
+    · exact hpre
+  have hreadwf : readY.wf = true := by
+    unfold PinMap.wfState at hreadS; simp only [Bool.and_eq_true] at hreadS; exact hreadS.1
+  have hfinal : final = applyLog outY.log outX.post := by
+    show concurrent cfg pre x y stale = _
+    unfold concurrent; simp only; rw [hs1]
+    show _ = applyLog (step cfg (readOfSecond cfg pre x stale) y.op y.chosen).log outX.post
+    unfold readOfSecond; rw [hs1]
+  have hget := fun k => get_applyLog_of_shape (shape_step cfg readY y.op y.chosen) hreadwf hs1wf k
+  refine ⟨?_, ?_, ?_, ?_⟩
+  · rw [hfinal]; exact wf_applyLog _ hs1wf
+  · intro k; rw [hfinal, hget k]
+    by_cases ht : touched outY.log k = true
+    · left; simp [outY, ht]
+    · right; simp [outY, outX, ht]
+  · intro k ht; rw [hfinal, hget k]; simp [outY, ht]
+  · exact step_holds cfg readY y.op y.chosen hreadS hcfg hy halloc
+
+private def cOpts : Opts :=
+  { rmin := 1, rmax := 1, name := 0, mode := .recursive, shard := 0, expire := .zero,
+    metadata := [], update := none, origins := [], ualloc := [] }
+private def cCfg : Cfg :=
+  { follower := false, defMin := 1, defMax := 1, desc := false, peers := [(0, .valid 1), (1, .valid 1)], paths := [], blocks := [] }
+
+/-- …but only relative to the pinset it READ. Judged against the pinset its write landed on, a stale second
+    writer can break the statement: two overlapping, identical `Pin` calls (both admissible for their read, the two
+    peers tie) leave the allocation of the SECOND, although "re-pinning with identical options keeps the
+    allocations". The property's quantifier is over sequences of calls, so this is recorded as an observation about
+    overlap (replayed on the real Cluster by suite `conc`), not as a violation of C04. -/
+theorem stale_writer_judged_at_write_fails :
+    ∃ (cfg : Cfg) (pre : PinMap) (x y : Call),
+      C03.allowed ((step cfg pre x.op x.chosen).alloc.getD default') (.ok x.chosen) = true ∧
+      C03.allowed ((step cfg pre y.op y.chosen).alloc.getD default') (.ok y.chosen) = true ∧
+      holds cfg (step cfg pre x.op x.chosen).post y.op (step cfg pre y.op y.chosen).res (concurrent cfg pre x y true) = false :=
+  ⟨cCfg, [], { op := .pin 1 cOpts, chosen := [0] }, { op := .pin 1 cOpts, chosen := [1] }, by decide⟩
+
 /-! ### The anchored functions still read as the model was transcribed (regenerated from /repo on every run) -/
 
 theorem gen_source_pinPublic : Gen.pinPublic = Expected.pinPublic := rfl
@@ -265,6 +531,7 @@ theorem gen_source_setupPin : Gen.setupPin = Expected.setupPin := rfl
 theorem gen_source_pinInternal : Gen.pinInternal = Expected.pinInternal := rfl
 theorem gen_source_unpin : Gen.unpin = Expected.unpin := rfl
 theorem gen_source_unpinClusterDag : Gen.unpinClusterDag = Expected.unpinClusterDag := rfl
+theorem gen_source_cidsFromMetaPin : Gen.cidsFromMetaPin = Expected.cidsFromMetaPin := rfl
 theorem gen_source_pinUpdate : Gen.pinUpdate = Expected.pinUpdate := rfl
 theorem gen_source_pinPath : Gen.pinPath = Expected.pinPath := rfl
 theorem gen_source_unpinPath : Gen.unpinPath = Expected.unpinPath := rfl
